@@ -19,14 +19,15 @@ from harness import net_common, net_driver as nd
 
 
 def run(ctx):
-    ctx.mc("net", "IOStreamContract", "MC_IOStreamClose.cfg",
+    ctx.mc("net", "IOStreamContract", "MC_IOStreamClose.cfg", overrides=ctx.pick({}, {"MaxStream": 3, "Ccs": "{0, 1}"}),
            required_actions=["Read", "Deliver", "Cond", "CloseLocal", "Write", "Grant", "WCond", "ConnOk", "ConnFail"])
-    L = ctx.pick(4, 5)
+    L = 4
     variants = ctx.pick(nd.VARIANTS[:1], nd.VARIANTS[:2])
-    net_common.s2c_stream(ctx, "GenG_IOStreamClose.cfg", {"L": L}, variants,
+    net_common.s2c_stream(ctx, "GenG_IOStreamClose.cfg",
+                          ctx.pick({"L": L}, {"L": L, "MaxChunk": 2, "Ccs": "{0, 1}"}), variants,
                           nontrivial=lambda e, p: len(p) >= 2 and any(s["exp"]["st"] == "closed" for s in p))
     ctx.cov["exhaustive"] = True
-    net_common.c2s_stream(ctx, "close", n=ctx.pick(200, 5000))
+    net_common.c2s_stream(ctx, "close", n=ctx.pick(150, 3000))
     ctx.cov["rule"] = ("paths: every sequence of read/deliver/write/grant/connect-ok/connect-refused/close/close(exc)/"
                        "eof/reset/read-error/write-reset/write-error of length <= %d (close callback on/off, connected / "
                        "connecting) under %d transport variants; plus seeded random recorded programs with a random "
